@@ -390,3 +390,62 @@ func (p *PathConds) canonOf(d dnf) dnf {
 	}
 	return out
 }
+
+// dnfEquivDomain decides equivalence of a and b where atoms of the form (T == "c"), for
+// a term T listed in domains, are interpreted over the finite set of values T can take
+// (so `T != "x"` and `T == "y"` agree when the domain is {x, y}). Other atoms are free.
+func dnfEquivDomain(a, b dnf, domains map[string][]string) bool {
+	if a.unknown || b.unknown {
+		return false
+	}
+	var free []string
+	type eqAtom struct{ term, val string }
+	eq := map[string]eqAtom{}
+	for _, at := range dnfAtoms(a, b) {
+		matched := false
+		for t := range domains {
+			pre := "(" + t + " == \""
+			if strings.HasPrefix(at, pre) && strings.HasSuffix(at, "\")") {
+				eq[at] = eqAtom{t, strings.TrimSuffix(strings.TrimPrefix(at, pre), "\")")}
+				matched = true
+			}
+		}
+		if !matched {
+			free = append(free, at)
+		}
+	}
+	if len(free) > 12 {
+		return false
+	}
+	var terms []string
+	for t := range domains {
+		terms = append(terms, t)
+	}
+	sort.Strings(terms)
+	var rec func(i int, asgT map[string]string) bool
+	rec = func(i int, asgT map[string]string) bool {
+		if i < len(terms) {
+			for _, v := range domains[terms[i]] {
+				asgT[terms[i]] = v
+				if !rec(i+1, asgT) {
+					return false
+				}
+			}
+			return true
+		}
+		for mask := 0; mask < 1<<uint(len(free)); mask++ {
+			asg := map[string]bool{}
+			for j, at := range free {
+				asg[at] = mask&(1<<uint(j)) != 0
+			}
+			for at, e := range eq {
+				asg[at] = asgT[e.term] == e.val
+			}
+			if evalDNF(a, asg) != evalDNF(b, asg) {
+				return false
+			}
+		}
+		return true
+	}
+	return rec(0, map[string]string{})
+}
